@@ -144,11 +144,14 @@ def snapshot(obj):
     if isinstance(obj, np.generic):
         return ("np", str(obj.dtype), obj.tobytes())
     if isinstance(obj, dict):
-        return ("dict", [(k, snapshot(v)) for k, v in obj.items()])
+        # the concrete mapping class is part of the value (a defaultdict / OrderedDict is not a plain dict)
+        return ("dict", type(obj).__name__, [(k, snapshot(v)) for k, v in obj.items()])
     if isinstance(obj, (list, tuple)):
         return (type(obj).__name__, [snapshot(v) for v in obj])
     if isinstance(obj, nir.NIRNode):
-        return ("node", type(obj).__name__, id(obj),
+        # ... and so is *which* metadata object a node holds: re-binding the field to an equal copy cuts the link to
+        # the dictionary the caller attached
+        return ("node", type(obj).__name__, id(obj), id(getattr(obj, "metadata", None)),
                 [(f.name, snapshot(getattr(obj, f.name))) for f in dataclasses.fields(obj)])
     if isinstance(obj, float):
         import struct
